@@ -168,6 +168,23 @@ def closure_fn(ex, callee_or_val):
 
 def call_closure(ex, st, clo_val, callee, args):
     """run a closure body; returns [(state, value)]"""
+    if isinstance(clo_val, tuple) and clo_val[0] == 'pathfn':
+        path = ex.subst_callee(st.stack[-1], clo_val[1]) if st.stack else clo_val[1]; canon = canon_path(path)
+        for pat, fnc in ex.contracts:
+            if re.search(pat, canon):
+                ex.stats['contracts'].add(fnc.__name__ + '  /' + pat + '/'); res = []
+                outs = fnc(ex, st, path, list(args))
+                for o in outs:
+                    cond, val = o[0], o[1]; base = o[2] if len(o) > 2 else st
+                    if cond is not None and not ex.feasible(base, cond): continue
+                    s2 = base.fork() if (len(outs) > 1 and len(o) == 2) else base
+                    if cond is not None: s2.pc.append(cond)
+                    res.append((s2, val))
+                return res
+        r = ex.resolve(path)
+        if r is None: raise Unsupported('function value with no contract and no MIR: ' + path)
+        return ex.run_sub(r[0], list(args), st, subst=ex.bind_generics(r[0], path, r[1]))
+    if isinstance(clo_val, tuple) and clo_val[0] == 'ctor': return [(st, adt(clo_val[1], clo_val[2] if len(clo_val) > 2 else None, *args))]      # a tuple-struct constructor passed as the function
     f = closure_fn(ex, clo_val if (isinstance(clo_val, tuple) and (clo_val[0] == 'closure' or (clo_val[0] == 'zst' and 'closure@' in clo_val[1]))) else callee)
     ex.stats['inlined'].add(f.name)
     env = clo_val if (isinstance(clo_val, tuple) and clo_val[0] == 'closure') else ('closure', '', ())
@@ -229,7 +246,7 @@ def c_from_residual(ex, st, callee, a):
 @contract(r'^<impl Into<Option<', r'^<&str as Into<&str>>::into$', r'^must_use::<', r'^<str as ToOwned>::to_owned$',
           r'^<Vec<u8> as Deref(Mut)?>::deref(_mut)?$', r'^<\[u8\] as AsRef<\[u8\]>>::as_ref$', r'^<&\[u8; \d+\] as (AsRef|Into|Deref|IntoIterator)',
           r'^<GenericArray<.*> as Deref>::deref$', r'^<\[u8; \d+\] as AsRef<\[u8\]>>::as_ref$', r'^<&(mut )?\[u8(; \d+)?\] as Into<&(mut )?GenericArray<',
-          r'^<Vec<u8> as AsRef<\[u8\]>>::as_ref$', r'^<GenericArray<u8, .*> as AsRef<\[u8\]>>::as_ref$', r'^<std::string::String as Deref>::deref$', r'^<std::string::String as AsRef<str>>::as_ref$',
+          r'^<Vec<u8> as AsRef<\[u8\]>>::as_ref$', r'^Vec::<u8>::as_slice$', r'^Vec::<u8>::as_mut_slice$', r'^<GenericArray<u8, .*> as AsRef<\[u8\]>>::as_ref$', r'^<std::string::String as Deref>::deref$', r'^<std::string::String as AsRef<str>>::as_ref$',
           r'^(?:std::string::)?String::as_str$', r'^<&str as AsRef<str>>::as_ref$', r'^<str as AsRef<str>>::as_ref$', r'^<std::string::String as Clone>::clone$',
           r'^<std::string::String as From<&str>>::from$', r'^<&str as Into<std::string::String>>::into$', r'^<str as ToString>::to_string$',
           r'^<std::string::String as ToString>::to_string$', r'^<std::string::String as Into<std::string::String>>::into$',
@@ -609,6 +626,62 @@ def c_extend(ex, st, callee, a):
 def c_slice_iter(ex, st, callee, a): return [(None, deref(st, a[0]))]
 
 
+@contract(r'^<&\[.*\] as IntoIterator>::into_iter$', r'^<&\[.*; \d+\] as IntoIterator>::into_iter$')
+def c_slice_into_iter(ex, st, callee, a):
+    arr = deref(st, a[0])
+    if not (isinstance(arr, tuple) and arr[0] == 'array'): raise Unsupported('iteration over a slice that is not an aggregate of known length: ' + str(arr)[:50])
+    ex.stats['bounds']['for loop over a piece array'] = max(ex.stats['bounds'].get('for loop over a piece array', 0), len(arr[1]))
+    return [(None, ('aiter', tuple(arr[1]), 0))]
+
+
+@contract(r'^<(?:std::slice::|core::slice::)?Iter<.*> as Iterator>::next$')
+def c_slice_iter_next(ex, st, callee, a):
+    it = deref(st, a[0])
+    if isinstance(it, tuple) and it[0] == 'array': it = ('aiter', tuple(it[1]), 0)      # `.iter()` hands the aggregate itself
+    if not (isinstance(it, tuple) and it[0] == 'aiter'): raise Unsupported('next() on ' + str(it)[:50])
+    if it[2] >= len(it[1]): return [(None, NONE)]
+    upd(st, a[0], ('aiter', it[1], it[2] + 1)); cell = st.new_cell(it[1][it[2]])
+    return [(None, some(('ref', cell, ())))]
+
+
+@contract(r'^<(?:std::slice::|core::slice::)?Iter<.*> as Iterator>::(find|position|any|all)::<')
+def c_slice_iter_search(ex, st, callee, a):
+    """find / position / any / all over an aggregate of known length with a crate closure: the closure is run on each element in order"""
+    kind = re.search(r'Iterator>::(\w+)::<', callee).group(1)
+    it = deref(st, a[0])
+    if isinstance(it, tuple) and it[0] == 'array': it = ('aiter', tuple(it[1]), 0)
+    if not (isinstance(it, tuple) and it[0] == 'aiter'): raise Unsupported('%s() over %s' % (kind, str(it)[:50]))
+    elems = it[1][it[2]:]
+    ex.stats['bounds']['iterator search over a table'] = max(ex.stats['bounds'].get('iterator search over a table', 0), len(elems))
+    outs = []; frontier = [(st, [])]
+    for i, el in enumerate(elems):
+        nxt = []
+        for s1, conds in frontier:
+            cell = s1.new_cell(el); arg = ('ref', cell, ()) if kind == 'find' else el
+            argcell = s1.new_cell(arg) if kind == 'find' else None
+            for s2, b in call_closure(ex, s1, a[1], callee, [('ref', argcell, ()) if kind == 'find' else el]):
+                b = b if is_expr(b) else BoolVal(bool(b))
+                hit = b if kind != 'all' else Not(b)
+                if not is_false(simplify(hit)):
+                    res = {'find': some(('ref', cell, ())), 'position': some(IntVal(i)), 'any': BoolVal(True), 'all': BoolVal(False)}[kind]
+                    outs.append((And(*(conds + [hit])) if conds + [hit] else None, res, s2.fork()))
+                if not is_true(simplify(hit)): nxt.append((s2, conds + [Not(hit)]))
+        frontier = nxt
+    for s1, conds in frontier:
+        res = {'find': NONE, 'position': NONE, 'any': BoolVal(False), 'all': BoolVal(True)}[kind]
+        outs.append((And(*conds) if conds else None, res, s1))
+    return outs
+
+
+@contract(r'^<\{closure@.*\} as Fn(Mut|Once)?<\(.*\)>>::call(_mut|_once)?$', r'^<&\{closure@.*\} as Fn(Mut|Once)?<\(.*\)>>::call(_mut|_once)?$')
+def c_direct_closure_call(ex, st, callee, a):
+    """a local closure bound to a variable and called like a function"""
+    clo = a[0]
+    while isinstance(clo, tuple) and clo[0] == 'ref': clo = deref(st, clo)
+    args = list(a[1][1]) if isinstance(a[1], tuple) and a[1][0] == 'tup' else [a[1]]
+    return [(None, v, s2) for s2, v in call_closure(ex, st, clo, callee, args)]
+
+
 @contract(r' as Iterator>::fold::<')
 def c_fold(ex, st, callee, a):
     arr, acc = a[0], a[1]
@@ -625,7 +698,7 @@ def c_fold(ex, st, callee, a):
     return [(None, v, s2) for s2, v in cur]
 
 
-@contract(r'^<&\[u8; (\d+)\] as TryFrom<&\[u8\]>>::try_from$')
+@contract(r'^<&\[u8; (\d+)\] as TryFrom<&\[u8\]>>::try_from$', r'^<\[u8; (\d+)\] as TryFrom<&\[u8\]>>::try_from$', r'^<\[u8; (\d+)\] as TryFrom<&mut \[u8\]>>::try_from$')
 def c_array_ref_try_from(ex, st, callee, a):
     n = int(re.search(r'u8; (\d+)\]', callee).group(1)); v = as_bytes(st, a[0])
     return [(Length(v) != n, err(adt('TryFromSliceError', None))), (Length(v) == n, ok(v))]
@@ -860,6 +933,16 @@ def c_b64_encode(ex, st, callee, a): return [(None, _b64_enc(st, a[0], a[1]))]
 def c_b64_encode_string(ex, st, callee, a):
     cur = deref(st, a[2]); enc = _b64_enc(st, a[0], a[1])
     upd(st, a[2], enc if (is_string_value(cur) and cur.as_string() == '') else Concat(cur, enc)); return [(None, UNIT)]
+
+
+@contract(r'^(?:std::string::)?String::push_str$', r'^(?:std::string::)?String::push$', r'^<std::string::String as std::ops::AddAssign<&str>>::add_assign$')
+def c_string_push(ex, st, callee, a):
+    cur = deref(st, a[0]); x = as_str(st, a[1])
+    upd(st, a[0], x if (is_string_value(cur) and cur.as_string() == '') else simplify(Concat(cur, x))); return [(None, UNIT)]
+
+
+@contract(r'^(?:std::string::)?String::clear$')
+def c_string_clear(ex, st, callee, a): upd(st, a[0], StringVal('')); return [(None, UNIT)]
 
 
 @contract(r'^(?:std::string::)?String::with_capacity$')
@@ -1251,7 +1334,7 @@ def instantiate(assertions, honest=None, secret_keys=(), rounds=2):
             add(Implies(is_utf8(t.arg(0)), utf8(t) == t.arg(0)))
         for t in apps.get('b64', []):
             add(Not(Contains(t, StringVal('.')))); add(b64dec_ok(t)); add(b64dec(t) == t.arg(0))
-            add((t == StringVal('')) == (Length(t.arg(0)) == 0)); add(Length(t.arg(0)) <= Length(t))
+            add((t == StringVal('')) == (Length(t.arg(0)) == 0)); add(Length(t.arg(0)) <= Length(t)); add(Length(t) <= 2 * Length(t.arg(0)) + 2)      # ceil(4n/3) <= 2n + 2
         for t in apps.get('b64dec_lenient', []) + apps.get('b64dec_lenient_ok', []):
             x = t.arg(0)
             add(Length(b64dec_lenient(x)) <= Length(x))
